@@ -23,6 +23,9 @@ CHECKS = {
  'C08': dict(tech='Verus contracts (spec matrices derived from the clip-volume requirement, per handedness and depth convention) on the 21 extracted projection constructors x 2 layouts + z3 (QF_NRA) lemmas: 8 view-volume corners -> clip-volume corners; theorem functions for perspective == frustum(symmetric planes), perspective_fov == perspective(w/h), lh == rh * z-mirror, infinite perspective',
              text='Deductive proof: every orthographic/frustum/perspective/perspective_fov/(tweaked_)infinite_perspective constructor (lh/rh, zo/no; row- and column-major) equals the matrix that the clip-volume requirement determines; the eight corners of the (off-centre) view volume reach x,y = -1/+1 and depth 0|-1 / 1 after the homogeneous divide (stated division-free as x'' = +-w'' ...), w'' = +-z is positive in front, for all planes with left!=right, bottom!=top, near!=far.',
              note=TB + 'Genuine defect found and repaired (fix: commit): left-handed off-centre frusta. tan_r*cos_r == sin_r axiom. IndexMut assumed (Kani, C18).', ref='5 C08'),
+ 'C09': dict(tech='Verus contracts (textbook camera frame f,s,u with sqrt radicals; change-of-basis matrices) on the extracted look_at/model_look_at/basis_to_local/local_to_basis (+ normalized, cross, dot, Sub) + z3 (QF_NRA) lemmas in Q[9 coords, 2 radicals], glued by theorem functions',
+             text='Deductive proof: look_at_lh/rh, look_at, model_look_at_lh/rh, model_look_at, basis_to_local, local_to_basis (both layouts) equal their textbook matrices; theorem functions prove for all eye != target and up not parallel to the view direction: rotation block orthogonal with determinant +1, last row (0,0,0,1), eye -> origin, target -> (0,0,+-|t-e|), up.x'' = 0 and up.y'' > 0, model_look_at is the two-sided inverse and sends the origin to the eye; local_to_basis maps origin and unit axes to o, o+i, o+j, o+k and basis_to_local undoes it for every orthonormal basis.',
+             note=TB + 'sqrt_r axiom; degenerate inputs excluded as in the property.', ref='5 C09'),
  'C06': dict(tech='Verus contracts (cofactor/Leibniz determinant, adjugate/determinant inverse) on the extracted determinant/inverted/Mul functions + z3 (QF_NRA) lemmas for det multiplicativity, transpose invariance and M*adj/det = I, glued by Verus-checked theorem functions over the real API',
              text='Deductive proof: determinant (2,3,4; both layouts) equals the cofactor expansion; Mat4::inverted (2x2-block algorithm through the real shuffle/mat2 helper code incl. the bit-packed ShuffleMask4) returns adj(M)/det(M) whenever det != 0; theorem functions calling the real API prove det(M^T)=det(M), layout invariance, det(AB)=det(A)det(B) and M*M^-1 = M^-1*M = I for every real matrix with non-zero determinant, with the polynomial/rational identities discharged by z3 (nlsat / solve-eqs+smt portfolio).',
              note=TB + 'The rigid and affine fast inverses are not yet under contract (listed under not_decided).', ref='5 C06'),
